@@ -304,7 +304,7 @@ variable {K : Type} [Field K] [LinearOrder K] [IsStrictOrderedRing K]
 /-- which solver CubicBezier._findRoots('y') uses: [0] exact quadratic, [1] polished quadratic (negligible d), [2] Cardano -/
 
 @[gen_def] def cubic_findRoots_dispatch (p0x p0y p1x p1y p2x p2y p3x p3y : K) : List K :=
-  if |((((-p0y) + ((3 : K) * p1y)) - ((3 : K) * p2y)) + p3y)| ≤ (((1 : K) / 10000) * (max (max |((((3 : K) * p0y) - ((6 : K) * p1y)) + ((3 : K) * p2y))| |(((-3 : K) * p0y) + ((3 : K) * p1y))|) |p0y|)) then
+  if |((((-p0y) + ((3 : K) * p1y)) - ((3 : K) * p2y)) + p3y)| ≤ (((1 : K) / 1000000) * (max (max |((((3 : K) * p0y) - ((6 : K) * p1y)) + ((3 : K) * p2y))| |(((-3 : K) * p0y) + ((3 : K) * p1y))|) |p0y|)) then
     if ((((-p0y) + ((3 : K) * p1y)) - ((3 : K) * p2y)) + p3y) = (0 : K) then
       [(0 : K)]
     else
@@ -320,7 +320,7 @@ variable {K : Type} [Field K] [LinearOrder K] [IsStrictOrderedRing K]
 /-- the closed-form roots CubicBezier._findRoots('y') hands to _polishRoots ([] in the quadratic fallbacks) -/
 
 @[gen_def] def cubic_cardano_roots (pi : K) (sqrt : K → K) (cos : K → K) (acos : K → K) (rpow : K → K → K) (p0x p0y p1x p1y p2x p2y p3x p3y : K) : List K :=
-  if |((((-p0y) + ((3 : K) * p1y)) - ((3 : K) * p2y)) + p3y)| ≤ (((1 : K) / 10000) * (max (max |((((3 : K) * p0y) - ((6 : K) * p1y)) + ((3 : K) * p2y))| |(((-3 : K) * p0y) + ((3 : K) * p1y))|) |p0y|)) then
+  if |((((-p0y) + ((3 : K) * p1y)) - ((3 : K) * p2y)) + p3y)| ≤ (((1 : K) / 1000000) * (max (max |((((3 : K) * p0y) - ((6 : K) * p1y)) + ((3 : K) * p2y))| |(((-3 : K) * p0y) + ((3 : K) * p1y))|) |p0y|)) then
     []
   else
     if ((((((((((2 : K) * (((((3 : K) * p0y) - ((6 : K) * p1y)) + ((3 : K) * p2y)) / ((((-p0y) + ((3 : K) * p1y)) - ((3 : K) * p2y)) + p3y))) * (((((3 : K) * p0y) - ((6 : K) * p1y)) + ((3 : K) * p2y)) / ((((-p0y) + ((3 : K) * p1y)) - ((3 : K) * p2y)) + p3y))) * (((((3 : K) * p0y) - ((6 : K) * p1y)) + ((3 : K) * p2y)) / ((((-p0y) + ((3 : K) * p1y)) - ((3 : K) * p2y)) + p3y))) - (((9 : K) * (((((3 : K) * p0y) - ((6 : K) * p1y)) + ((3 : K) * p2y)) / ((((-p0y) + ((3 : K) * p1y)) - ((3 : K) * p2y)) + p3y))) * ((((-3 : K) * p0y) + ((3 : K) * p1y)) / ((((-p0y) + ((3 : K) * p1y)) - ((3 : K) * p2y)) + p3y)))) + ((27 : K) * (p0y / ((((-p0y) + ((3 : K) * p1y)) - ((3 : K) * p2y)) + p3y)))) / (27 : K)) / (2 : K)) * ((((((((2 : K) * (((((3 : K) * p0y) - ((6 : K) * p1y)) + ((3 : K) * p2y)) / ((((-p0y) + ((3 : K) * p1y)) - ((3 : K) * p2y)) + p3y))) * (((((3 : K) * p0y) - ((6 : K) * p1y)) + ((3 : K) * p2y)) / ((((-p0y) + ((3 : K) * p1y)) - ((3 : K) * p2y)) + p3y))) * (((((3 : K) * p0y) - ((6 : K) * p1y)) + ((3 : K) * p2y)) / ((((-p0y) + ((3 : K) * p1y)) - ((3 : K) * p2y)) + p3y))) - (((9 : K) * (((((3 : K) * p0y) - ((6 : K) * p1y)) + ((3 : K) * p2y)) / ((((-p0y) + ((3 : K) * p1y)) - ((3 : K) * p2y)) + p3y))) * ((((-3 : K) * p0y) + ((3 : K) * p1y)) / ((((-p0y) + ((3 : K) * p1y)) - ((3 : K) * p2y)) + p3y)))) + ((27 : K) * (p0y / ((((-p0y) + ((3 : K) * p1y)) - ((3 : K) * p2y)) + p3y)))) / (27 : K)) / (2 : K))) + (((((((3 : K) * ((((-3 : K) * p0y) + ((3 : K) * p1y)) / ((((-p0y) + ((3 : K) * p1y)) - ((3 : K) * p2y)) + p3y))) - ((((((3 : K) * p0y) - ((6 : K) * p1y)) + ((3 : K) * p2y)) / ((((-p0y) + ((3 : K) * p1y)) - ((3 : K) * p2y)) + p3y)) * (((((3 : K) * p0y) - ((6 : K) * p1y)) + ((3 : K) * p2y)) / ((((-p0y) + ((3 : K) * p1y)) - ((3 : K) * p2y)) + p3y)))) / (3 : K)) / (3 : K)) * (((((3 : K) * ((((-3 : K) * p0y) + ((3 : K) * p1y)) / ((((-p0y) + ((3 : K) * p1y)) - ((3 : K) * p2y)) + p3y))) - ((((((3 : K) * p0y) - ((6 : K) * p1y)) + ((3 : K) * p2y)) / ((((-p0y) + ((3 : K) * p1y)) - ((3 : K) * p2y)) + p3y)) * (((((3 : K) * p0y) - ((6 : K) * p1y)) + ((3 : K) * p2y)) / ((((-p0y) + ((3 : K) * p1y)) - ((3 : K) * p2y)) + p3y)))) / (3 : K)) / (3 : K))) * (((((3 : K) * ((((-3 : K) * p0y) + ((3 : K) * p1y)) / ((((-p0y) + ((3 : K) * p1y)) - ((3 : K) * p2y)) + p3y))) - ((((((3 : K) * p0y) - ((6 : K) * p1y)) + ((3 : K) * p2y)) / ((((-p0y) + ((3 : K) * p1y)) - ((3 : K) * p2y)) + p3y)) * (((((3 : K) * p0y) - ((6 : K) * p1y)) + ((3 : K) * p2y)) / ((((-p0y) + ((3 : K) * p1y)) - ((3 : K) * p2y)) + p3y)))) / (3 : K)) / (3 : K)))) < (0 : K) then
